@@ -270,3 +270,37 @@ def gen_mbp(rng, prog=()):
     a = rng.choice([P0, P0 + 1, P0 + 2, P0 + 0xffd, P0 + 0xfff, P1, P1 + 1])
     r = rng.random() < 0.6
     return {"c": "addmbp", "a": a, "n": rng.choice([1, 1, 2, 4]), "r": r, "w": (not r) or rng.random() < 0.4}
+
+
+def templates(rng):
+    """fixed scenarios every jitter check plays on every backend / configuration (the random corpus moves whenever a generator
+    changes; these do not): watchpoints hit by instructions that only read / only write, not on the first byte of the access, by
+    an instruction in the middle of a block; code patched later in the block being executed; a loop around them"""
+    i = lambda: rng.randrange(1, 120)
+    out = []
+    # read watchpoint hit by a load in the middle of a block, then by a 4-byte read whose first byte is not watched
+    prog = [{"k": "RT", "i": i()}, {"k": "LD", "a": P0 + 2}, {"k": "RT", "i": i()}, {"k": "PUM", "a": P0 + 0x10}, {"k": "RT", "i": i()},
+            {"k": "LD", "a": P1 + 2}, {"k": "RT", "i": i()}]
+    for mb in ([{"c": "addmbp", "a": P0 + 2, "n": 1, "r": True, "w": False}],
+               [{"c": "addmbp", "a": P0 + 0x12, "n": 1, "r": True, "w": False}],
+               [{"c": "addmbp", "a": P0 + 0x13, "n": 2, "r": True, "w": True}, {"c": "addmbp", "a": P1 + 2, "n": 1, "r": True, "w": False}]):
+        out.append((prog, mb + [{"c": "run", "s": 0}, {"c": "cont"}, {"c": "cont"}, {"c": "cont"}], "rw+rw", True))
+    # write watchpoint hit by a store in the middle of a block, by the last byte of a 4-byte store, by a read-modify-write
+    prog = [{"k": "RT", "i": i()}, {"k": "ST", "a": P0 + 1, "v": 7}, {"k": "RT", "i": i()}, {"k": "ST4", "a": P0 + 0x20, "v": 9}, {"k": "RT", "i": i()},
+            {"k": "INCM", "a": P1 + 1}, {"k": "RT", "i": i()}, {"k": "RT", "i": i()}]
+    for mb in ([{"c": "addmbp", "a": P0 + 1, "n": 1, "r": False, "w": True}],
+               [{"c": "addmbp", "a": P0 + 0x23, "n": 1, "r": False, "w": True}],
+               [{"c": "addmbp", "a": P1 + 1, "n": 1, "r": True, "w": False}],
+               [{"c": "addmbp", "a": P1 + 1, "n": 1, "r": False, "w": True}, {"c": "addmbp", "a": P0 + 0x21, "n": 2, "r": False, "w": True}]):
+        out.append((prog, mb + [{"c": "run", "s": 0}, {"c": "cont"}, {"c": "cont"}, {"c": "cont"}], "rw+rw", True))
+    # a counted loop over a watched load
+    prog = [{"k": "RT", "i": i()}, {"k": "LD", "a": P0 + 1}, {"k": "RT", "i": i()}, {"k": "DEC"}, {"k": "JNZ", "t": 1}, {"k": "RT", "i": i()}]
+    out.append((prog, [{"c": "addmbp", "a": P0 + 1, "n": 1, "r": True, "w": False}, {"c": "run", "s": 0}] + [{"c": "cont"}] * 4, "rw", True))
+    # code patched further down the block being executed, and just behind
+    prog = [{"k": "RT", "i": i()}, {"k": "PATCH", "s": 3, "v": i()}, {"k": "RT", "i": i()}, {"k": "RT", "i": i()}, {"k": "PU", "i": i()}]
+    out.append((prog, [{"c": "run", "s": 0}], "rw", True))
+    prog = [{"k": "RT", "i": i()}, {"k": "PATCH", "s": 2, "v": i()}, {"k": "PU", "i": i()}, {"k": "RT", "i": i()}]
+    out.append((prog, [{"c": "run", "s": 0}], "rw", True))
+    prog = [{"k": "PU", "i": i()}, {"k": "RT", "i": i()}, {"k": "PATCH", "s": 0, "v": i()}, {"k": "DEC"}, {"k": "JNZ", "t": 0}, {"k": "RT", "i": i()}]
+    out.append((prog, [{"c": "run", "s": 0}], "rw", True))
+    return out
